@@ -577,6 +577,11 @@ func (w *twkbWriter) writePointArray(numPoints int, coords []float64) {
 }
 
 func (w *twkbWriter) writeAdditionalHeaders() {
+	if w.isEmpty {
+		// The metadata header of an empty geometry only has the "is empty"
+		// bit set, so it must not be followed by a size or bounding box.
+		return
+	}
 	// These are written in this order so that the size of the
 	// bbox is included in the size computation.
 	if w.hasBBox {
